@@ -28,11 +28,14 @@ package ingest
 //@   requires m.features != nil && f != nil
 //@   loop 1 invariant rangeindex >= -1
 //@   ensures implies(result != nil, samemap(*m.features))
+//@   ensures implies(result != nil, m.features == old(m.features) && m.references == old(m.references) && m.index == old(m.index))
 
 //@ func (*MutableOverlayWorld).AddFeature
 //@   requires m.features != nil && f != nil
 //@   loop 1 invariant rangeindex >= -1
 //@   ensures implies(result != nil, samemap(*m.features))
+//@   ensures implies(result != nil, m.epoch == old(m.epoch) && samemap(m.tags))
+//@   ensures implies(result != nil, m.features == old(m.features) && m.references == old(m.references) && m.index == old(m.index))
 
 // Success path of AddFeature: nothing is claimed about it under C13, the calls are havocked.
 //@ func NewModifiedFeatures
